@@ -496,9 +496,14 @@ func (c Cell) ContainsPoint(p Point) bool {
 	//   CellFromPoint(p).ContainsPoint(p)
 	//
 	// is always true. To do this, we need to account for the error when
-	// converting from (u,v) coordinates to (s,t) coordinates. In the
-	// normal case the total error is at most dblEpsilon.
-	return c.uv.ExpandedByMargin(dblEpsilon).ContainsPoint(uv)
+	// converting from (u,v) coordinates to (s,t) coordinates and back:
+	// CellFromPoint assigns p to the leaf cell floor(2^30 * uvToST(u)), and the
+	// cell's (u,v) bound is stToUV of the cell's (s,t) bound. For u < 0 both
+	// conversions subtract from 1, and the combined rounding error reaches
+	// 1.3 * dblEpsilon (a point can be placed in a leaf cell whose lower bound
+	// exceeds its u coordinate by that much), so a margin of dblEpsilon is
+	// not enough; 2 * dblEpsilon is.
+	return c.uv.ExpandedByMargin(2 * dblEpsilon).ContainsPoint(uv)
 }
 
 // Encode encodes the Cell.
